@@ -237,8 +237,13 @@ def _lrepr_bool(o: bool, **_) -> str:
 
 @lrepr.register(bytes)
 def _lrepr_bytes(o: bytes, **_) -> str:
+    # Python chooses the quote character of a bytes repr depending on its contents; the
+    # reader only accepts double quotes, so normalize to that form.
     v = repr(o)
-    return f'#b "{v[2:-1]}"'
+    quote, inner = v[1], v[2:-1]
+    if quote == "'":
+        inner = inner.replace("\\'", "'").replace('"', '\\"')
+    return f'#b "{inner}"'
 
 
 @lrepr.register(type(None))
